@@ -5,18 +5,11 @@
 //!
 //! exit 0: held on everything explored; exit 1: VIOLATION line printed; exit 2: inconclusive.
 
-mod agentsim;
-mod common;
-mod gen;
-mod props;
-mod refattrs;
-mod refimpl;
-mod refstun;
-
-use common::*;
+use vp::common::*;
+use vp::{props, refimpl};
 
 fn usage() -> ! {
-    eprintln!("usage: vp <C01..C20> <quick|thorough> | vp <ID> --replay <file>");
+    eprintln!("usage: vp <C01..C20> <quick|thorough|fuzz> | vp <ID> --replay <file> | vp <ID> --list-checks | vp <ID> --save-corpus [n]");
     std::process::exit(2);
 }
 
@@ -83,9 +76,22 @@ fn main() {
         }
     }
 
+    if args[2] == "--list-checks" {
+        for (c, raw) in vp::fuzzdrive::list_checks(&id) {
+            println!("{} {}", c, if raw { "raw-bytes" } else { "generated" });
+        }
+        std::process::exit(0);
+    }
+    if args[2] == "--save-corpus" {
+        // maintenance: minimise the working corpora of the last campaigns into /verif/fuzz/corpus
+        let keep = args.get(3).and_then(|s| s.parse().ok()).unwrap_or(48usize);
+        let ctx = Ctx::new(&id, Tier::Quick, 0);
+        vp::fuzzdrive::save_corpus(&ctx, keep);
+        std::process::exit(0);
+    }
     let tier = match args[2].as_str() {
         "quick" => Tier::Quick,
-        "thorough" => Tier::Thorough,
+        "thorough" | "fuzz" => Tier::Thorough,
         _ => usage(),
     };
     let seed: u64 = std::env::var("VERIF_SEED")
@@ -93,8 +99,21 @@ fn main() {
         .and_then(|s| s.trim().parse::<i128>().ok())
         .map(|v| v as u64)
         .unwrap_or(0);
-    let ctx = Ctx::new(&id, tier, seed);
-    let meta = (prop.run)(&ctx);
+    let mut ctx = Ctx::new(&id, tier, seed);
+    if args[2] == "fuzz" {
+        // only the coverage-guided campaigns (used while developing the fuzz layer)
+        ctx.mode = Mode::List;
+    }
+    let mut meta = (prop.run)(&ctx);
+    ctx.mode = Mode::Normal;
+    if tier == Tier::Thorough && !ctx.has_violation() && std::env::var("VERIF_NO_FUZZ").is_err() {
+        let fz = vp::fuzzdrive::thorough(&ctx);
+        if let Some(o) = meta.extra.as_object_mut() {
+            o.insert("coverage_guided".into(), fz);
+        } else {
+            meta.extra = serde_json::json!({ "coverage_guided": fz });
+        }
+    }
 
     let violations = std::mem::take(&mut *ctx.violations.lock().unwrap());
     let n = violations.len();
